@@ -78,7 +78,8 @@ def _dir_pipeline(pl, sd, fix, info, cid):
             body = b"<!doctype html><title>t</title>" + body
         open(path, "wb").write(body)
         files.append({"rel": b(n), "body": list(body)})
-    base = "https://example.com/" if p1["base"] == "root" else "https://example.com/app/v1/"
+    origin = "https://example.com:8443" if p1["base"] == "port" else "https://example.com"
+    base = origin + ("/app/v1/" if p1["base"] == "sub" else "/")
     out = os.path.join(sd, "out.wbn")
     args = ["-dir", d, "-baseURL", base, "-version", p1["ver"], "-o", out]
     if p1["ver"] == "b1":
@@ -86,7 +87,7 @@ def _dir_pipeline(pl, sd, fix, info, cid):
     if p1.get("override") == "variants":
         args += ["-headerOverride", "Variants: Accept-Language;en;fr"]
     rc, so, se = run("gen-bundle", args, sd)
-    ev = {"case": cid, "kind": "dirbundle", "ver": p1["ver"], "names": p1["names"], "basepath": b(base[len("https://example.com"):]), "files": files,
+    ev = {"case": cid, "kind": "dirbundle", "ver": p1["ver"], "names": p1["names"], "basepath": b(base[len(origin):]), "origin": b(origin), "files": files,
           "gen_exit": rc, "file": list(read(out)), "sign": "none", "dump_exit": -1, "sign_exit": -1, "dump2_exit": -1,
           "marks": {"signed": 0, "notsigned": 0, "verr": 0, "sigerr": 0}, "stderr": se.decode("latin1")[-300:]}
     events = [ev]
